@@ -1279,6 +1279,8 @@ class Analysis:
                 "ok_or": [(some, ("val", ok_(pay))), (none, ("val", err_(a[1]) if len(a) > 1 else None))],
                 "ok_or_else": [(some, ("val", ok_(pay))), (none, ("clo", a[1] if len(a) > 1 else None, [], err_))],
                 "as_ref": [(some, ("val", _some(("ref", False, ("val", pay))))), (none, ("val", NONE))],
+                "is_some_and": [(some, ("clo", a[1] if len(a) > 1 else None, [pay], ident)), (none, ("val", FALSE))],
+                "is_none_or": [(some, ("clo", a[1] if len(a) > 1 else None, [pay], ident)), (none, ("val", TRUE))],
                 "is_some": [(some, ("val", TRUE)), (none, ("val", FALSE))],
                 "is_none": [(some, ("val", FALSE)), (none, ("val", TRUE))],
                 "copied": [(some, ("val", _some(("deref", pay)))), (none, ("val", NONE))],
@@ -1291,6 +1293,25 @@ class Analysis:
                 D = ("discr", o)
                 pay = proj(("downcast", o, 1, "Some"), 0, "0", None)
                 alts = [((D, ("==", 1)), ("val", _some(("call", "<T as std::clone::Clone>::clone", (pay,), None)))), ((D, ("==", 0)), ("val", NONE))]
+        if alts is None and d in ("std::cmp::PartialEq::eq", "std::cmp::PartialEq::ne") and len(a) == 2 and \
+                (ev.callee.get("self_ty") or "").startswith("std::option::Option<"):
+            # `opt == Some(v)` on a symbolic option: Some(x) -> x == v, None -> false (and the mirror image; `!=` negated)
+            x, y = self._value_of(frame, a[0]), self._value_of(frame, a[1])
+            if _is_opt(x) and not _is_opt(y):
+                x, y = y, x
+            if _is_opt(y) and isinstance(x, tuple) and not _is_opt(x):
+                inner = re.sub(r"^std::option::Option<(.*)>$", r"\1", ev.callee.get("self_ty") or "")
+                D = ("discr", x)
+                pay = proj(("downcast", x, 1, "Some"), 0, "0", None)
+                ne = d.endswith("::ne")
+                if y[3] == "Some":
+                    v = y[4][0]
+                    same = ("call", "<%s as std::cmp::PartialEq>::%s" % (inner, "ne" if ne else "eq"), (pay, v), None)
+                    if inner in INT_TYS or inner in ("bool", "char"):
+                        same = frame.binop("Ne" if ne else "Eq", pay, v, inner)
+                    alts = [((D, ("==", 1)), ("val", same)), ((D, ("==", 0)), ("val", TRUE if ne else FALSE))]
+                else:
+                    alts = [((D, ("==", 1)), ("val", TRUE if ne else FALSE)), ((D, ("==", 0)), ("val", FALSE if ne else TRUE))]
         m = self.RES_RE.match(d) if alts is None else None
         if m and a and not (isinstance(a[0], tuple) and a[0][0] == "agg"):
             r = self._value_of(frame, a[0])
@@ -1556,6 +1577,10 @@ def std_model(an, frame, ev, path):
     r = _option_rows(an, frame, ev, path, d, a)
     if r is not None:
         return r
+    if d in ("std::mem::size_of", "core::mem::size_of") and not a and len(f.get("args") or []) == 1:
+        sz = {"u8": 1, "i8": 1, "bool": 1, "u16": 2, "i16": 2, "u32": 4, "i32": 4, "char": 4, "u64": 8, "i64": 8, "usize": 8, "isize": 8, "u128": 16, "i128": 16}.get(f["args"][0])
+        if sz is not None:
+            return I(sz, "usize")     # the extractor runs for the 64-bit host the checks are registered for
     if d in ("std::array::from_fn", "core::array::from_fn") and len(f.get("args") or []) >= 2 and str(f["args"][1]).isdigit() and len(a) == 1:
         # [f(0), f(1), .., f(N-1)] for a literal N: the array a table initialiser writes element by element
         n = int(f["args"][1])
